@@ -52,6 +52,22 @@ example : Covers [mkFragment ⟨.paragraph, .text ['a', '.', ' ', 'b'], ⟨1, 0,
                  [⟨.paragraph, .text ['a', '.', ' ', 'b'], ⟨1, 0, none, [], none, false, false, false⟩⟩] :=
   Covers.split _ [['a', '.'], ['b']] (by decide) (by decide) (by decide) Covers.nil
 
+/-- **Provenance.**  Every element of every chunk — whole or fragment — carries the bounding box,
+page, `parent_heading` and `heading_path` of an input element, and every input element is
+represented (`SameProv`); so the pages / boxes / breadcrumbs reported for a chunk are those of the
+elements its content came from. -/
+theorem C14_seq_provenance (cfg : Config) (cnt : Counter) (els : List Elem) :
+    (∀ c ∈ chunk cfg cnt els, ∀ x ∈ c.elements, ∃ e ∈ els, SameProv x e) ∧
+    (∀ e ∈ els, ∃ c ∈ chunk cfg cnt els, ∃ x ∈ c.elements, SameProv x e) := by
+  have h := (C14_seq_partition cfg cnt els).provenance
+  refine ⟨fun c hc x hx => h.1 x (List.mem_flatMap.2 ⟨c, hc, hx⟩), fun e he => ?_⟩
+  obtain ⟨x, hx, hp⟩ := h.2 e he
+  obtain ⟨c, hc, hxc⟩ := List.mem_flatMap.1 hx
+  exact ⟨c, hc, x, hxc, hp⟩
+
+example : SameProv (mkFragment ⟨.paragraph, .text ['a'], ⟨7, 3, some ['H'], [['H']], none, true, true, false⟩⟩ ['a'])
+    ⟨.paragraph, .text ['a'], ⟨7, 3, some ['H'], [['H']], none, true, true, false⟩⟩ := ⟨rfl, rfl, rfl, rfl⟩
+
 /-- invariant of the buffer used by the budget theorem -/
 def BufOK (cfg : Config) (cnt : Counter) (st : St) : Prop :=
   st.buffer ≠ [] →
@@ -265,6 +281,19 @@ theorem C14_graph_no_loss (cfg : Config) (cnt : Counter) (els : List Elem) :
     exact Covers.append (C14_seq_partition cfg cnt (preamble els)) (sections_covers cfg cnt els)
 
 example : (sections witnessDropInput).flatMap Sec.elems = afterPreamble witnessDropInput := by decide
+
+/-- **Provenance (graph)** — in full: as for the sequential chunker. -/
+theorem C14_graph_provenance (cfg : Config) (cnt : Counter) (els : List Elem) :
+    (∀ c ∈ chunkWithGraph cfg cnt els, ∀ x ∈ c.elements, ∃ e ∈ els, SameProv x e) ∧
+    (∀ e ∈ els, ∃ c ∈ chunkWithGraph cfg cnt els, ∃ x ∈ c.elements, SameProv x e) := by
+  obtain ⟨els', hperm, _, hcov⟩ := C14_graph_no_loss cfg cnt els
+  have h := hcov.provenance
+  refine ⟨fun c hc x hx => ?_, fun e he => ?_⟩
+  · obtain ⟨e, he, hp⟩ := h.1 x (List.mem_flatMap.2 ⟨c, hc, hx⟩)
+    exact ⟨e, hperm.mem_iff.1 he, hp⟩
+  · obtain ⟨x, hx, hp⟩ := h.2 e (hperm.mem_iff.2 he)
+    obtain ⟨c, hc, hxc⟩ := List.mem_flatMap.1 hx
+    exact ⟨c, hc, x, hxc, hp⟩
 
 /-- **Partition (graph), partial.**  When no non-title element names a title that is not the most
 recent one (`NoStale`: it names the most recent title, or no earlier title, or nothing — in
